@@ -254,8 +254,9 @@ class ModGen:
             t = rng.choice(INT_T + ['f', 'd', 'ld', 'i64', 'blk0', 'blk1', 'blk2', 'blk3', 'blk4', 'rblk'])
             n = 'a%d%s' % (i, rng.choice(['', '_', 'x']))
             if t.startswith('blk') or t == 'rblk':
-                args.append('%s:%s:%d' % (t, n, rng.choice([0, 1, 8, 16, 24, 100, 2**31, 2**32 - 1]
-                                                               + ([] if self.text_safe else [2**32, 2**40 + 1, 2**64 - 1]))))
+                # text: sizes up to 2^63-1 (larger ones print unsigned and scan as a negative literal)
+                args.append('%s:%s:%d' % (t, n, rng.choice([0, 1, 8, 16, 24, 100, 2**31, 2**32 - 1, 2**32, 2**40 + 1, 2**63 - 1]
+                                                               + ([] if self.text_safe else [2**63, 2**64 - 1]))))
             else:
                 args.append('%s:%s' % (t, n))
         vararg = 1 if (nargs > 0 or not for_func) and rng.random() < 0.2 else 0
